@@ -174,7 +174,7 @@ CLAIMED = {
         technique='Coq proof (induction over the dispatch loop and reader loops) + extracted-model correspondence + line-recording generator oracle',
         design='5/C13'),
     'C06': dict(
-        text='Unbounded, end to end through the inline phase: the texts *w*, _w_, **w**, __w__ whose inside w (any length) is free of trigger characters and begins and ends with a character that is neither white space nor punctuation tokenize to exactly one Emphasis / Strong holding w, rendered <em>w</em> / <strong>w</strong> (scanner, flanking, process_emphasis, all span finders, candidate tokenizer: C06_simple_emphasis); the same pair of runs inside a sentence, pre + run + w + run + post with trigger-free text of any length before and after it that meets the runs with white space, punctuation or nothing, tokenizes to text, one Emphasis / Strong, text (C06_emphasis_in_sentence). Unbounded theorems: the flanking classification of the model (is_opener / is_closer) equals the specification\'s left/right flanking with the '
+        text='Unbounded, end to end through the inline phase: the texts *w*, _w_, **w**, __w__ whose inside w (any length) is free of trigger characters and begins and ends with a character that is neither white space nor punctuation tokenize to exactly one Emphasis / Strong holding w, rendered <em>w</em> / <strong>w</strong> (scanner, flanking, process_emphasis, all span finders, candidate tokenizer: C06_simple_emphasis); the same pair of runs inside a sentence, pre + run + w + run + post with trigger-free text of any length before and after it that meets the runs with white space, punctuation or nothing, tokenizes to text, one Emphasis / Strong, text (C06_emphasis_in_sentence). The model\'s is_opener / is_closer / is_left_delimiter / is_right_delimiter / closed_by are proved equal to the functions translated from core_tokens.py on every run (C06_flanking_is_the_source). Unbounded theorems: the flanking classification of the model (is_opener / is_closer) equals the specification\'s left/right flanking with the '
              'underscore restrictions for ALL strings and positions (both character tables regenerated; the implementation\'s sets are proved equal to '
              'sets derived from unicodedata by the CommonMark definition), and closed_by is the negated rule of three on original lengths. Bounded theorems, '
              'kernel-evaluated in 33 shards: the complete inline parse of the model equals an independent Gallina transcription of the specification\'s '
